@@ -388,7 +388,7 @@ def run(ctx):
                 fs = set()
                 for t, lab in g.guards(d, exc=False):
                     fs |= _facts(t, lab == "true")
-                conv = isinstance(val, ast.Call) and unparse(val.func) == "FIXContainer" and [unparse(a_) for a_ in val.args] == [var] and (f"isinstance({var}, dict)", True) in fs
+                conv = isinstance(val, ast.Call) and unparse(val.func) == "FIXContainer" and [unparse(a_) for a_ in val.args] + [unparse(k_.value) for k_ in val.keywords] == [var] and (f"isinstance({var}, dict)", True) in fs
                 same = isinstance(val, ast.Name) and val.id == var and argn != var
                 if not (conv or same):
                     ok = False
